@@ -425,3 +425,87 @@ Proof.
       [reflexivity | discriminate | repeat constructor]. }
   apply rel_refl.
 Qed.
+
+(** * 5. The keyword-terminator guard *)
+Definition guard_class (t : token) : N := if is_meta t then 0 else if is_gap_kind t then 1 else 2.
+
+Lemma nth_error_class xs ys n :
+  map guard_class xs = map guard_class ys ->
+  option_map guard_class (nth_error xs n) = option_map guard_class (nth_error ys n).
+Proof.
+  revert ys n. induction xs as [|x xs IH]; intros [|y ys] n H; try discriminate.
+  - reflexivity.
+  - cbn [map] in H. injection H as Hh Ht. destruct n as [|n]; cbn [nth_error option_map].
+    + rewrite Hh; reflexivity.
+    + apply IH; exact Ht.
+Qed.
+
+Lemma guard_class_meta a b : guard_class a = guard_class b -> is_meta a = is_meta b.
+Proof. unfold guard_class. destruct (is_meta a), (is_meta b), (is_gap_kind a), (is_gap_kind b); intros; try reflexivity; discriminate. Qed.
+
+Lemma guard_class_gap a b : guard_class a = guard_class b -> is_meta a = false -> is_gap_kind a = is_gap_kind b.
+Proof. unfold guard_class. intros H Ha. rewrite Ha in H. destruct (is_meta b), (is_gap_kind a), (is_gap_kind b); try reflexivity; discriminate. Qed.
+
+(** The guard only distinguishes meta / whitespace-or-newline / anything else: turning a
+    whitespace token into a newline token (or back) cannot change it ... *)
+Theorem guard_class_only xs ys working start :
+  map guard_class xs = map guard_class ys ->
+  terminator_guard xs working start = terminator_guard ys working start.
+Proof.
+  intros H. unfold terminator_guard.
+  generalize (S (N.to_nat (start - working))) as fuel. generalize (start =? working) as dflt.
+  intros dflt fuel. revert start. induction fuel as [|f IH]; intros idx; cbn [guard_loop]; [reflexivity|].
+  destruct (idx <? working); [reflexivity|]. destruct (idx =? 0); [reflexivity|].
+  pose proof (nth_error_class xs ys (N.to_nat (idx - 1)) H) as Hn.
+  destruct (nth_error xs (N.to_nat (idx - 1))) as [a|], (nth_error ys (N.to_nat (idx - 1))) as [b|];
+    cbn [option_map] in Hn; try discriminate; [|reflexivity].
+  injection Hn as Hn. rewrite <- (guard_class_meta _ _ Hn).
+  destruct (is_meta a) eqn:Hm; [apply IH|]. rewrite (guard_class_gap _ _ Hn Hm). reflexivity.
+Qed.
+
+(** ... a gap token directly before the terminator always satisfies it (so a comment with
+    whitespace on both sides is harmless) ... *)
+Theorem guard_gap_before toks working start t :
+  0 < start -> working <= start ->
+  nth_error toks (N.to_nat (start - 1)) = Some t -> is_gap_kind t = true ->
+  terminator_guard toks working start = Some true.
+Proof.
+  intros Hs Hw Hn Hg. unfold terminator_guard. cbn [guard_loop].
+  destruct (start <? working) eqn:E; [apply N.ltb_lt in E; lia|].
+  destruct (start =? 0) eqn:E0; [apply N.eqb_eq in E0; lia|].
+  rewrite Hn. assert (Hm : is_meta t = false) by (unfold is_meta; unfold is_gap_kind in Hg; destruct (t_kind t); try discriminate; reflexivity).
+  rewrite Hm, Hg. reflexivity.
+Qed.
+
+(** ... but a comment is not a gap for this guard: inserting one between the whitespace and
+    the keyword flips it. This is the mechanism behind the recorded finding
+    c11:comment-abuts-next-code-token ("SELECT a /* c */FROM t"). *)
+Definition g_sel : list token :=
+  [tk KCode [83;69;76;69;67;84]; tk KWhitespace [32]; tk KCode [97]; tk KWhitespace [32]; tk KCode [70;82;79;77]].
+Definition g_sel_comment : list token :=
+  [tk KCode [83;69;76;69;67;84]; tk KWhitespace [32]; tk KCode [97]; tk KWhitespace [32]; tk KComment [47;42;99;42;47];
+   tk KCode [70;82;79;77]].
+
+Theorem guard_comment_refuted :
+  filter is_code g_sel = filter is_code g_sel_comment /\
+  terminator_guard g_sel 2 4 = Some true /\ terminator_guard g_sel_comment 2 5 = Some false.
+Proof. vm_compute. repeat split. Qed.
+
+(** The guard cannot index before the first token when it is not asked about index 0. *)
+Theorem guard_total toks working start :
+  0 < working -> start <= N.of_nat (length toks) -> terminator_guard toks working start <> None.
+Proof.
+  intros Hw Hs. unfold terminator_guard.
+  generalize (S (N.to_nat (start - working))) as fuel. generalize (start =? working) as dflt.
+  intros dflt fuel. revert start Hs. induction fuel as [|f IH]; intros idx Hs; cbn [guard_loop]; [discriminate|].
+  destruct (idx <? working) eqn:E; [discriminate|]. apply N.ltb_ge in E.
+  destruct (idx =? 0) eqn:E0; [apply N.eqb_eq in E0; lia|]. apply N.eqb_neq in E0.
+  destruct (nth_error toks (N.to_nat (idx - 1))) as [t|] eqn:Hn.
+  - destruct (is_meta t); [apply IH; lia | discriminate].
+  - apply nth_error_None in Hn. lia.
+Qed.
+
+(** At index 0 it would: [segments[idx - 1]] underflows. The crash search (every dialect keyword
+    as first token) has not reached this. *)
+Theorem guard_at_zero_crashes toks : terminator_guard toks 0 0 = None.
+Proof. reflexivity. Qed.
